@@ -1,4 +1,5 @@
 import collections
+import os
 import struct
 import sys
 
@@ -23,6 +24,9 @@ class Compiler:
         self.next_internal_symbol_prefix = 1
         self.times_file_compiled = collections.defaultdict(int)
         self.internal_prefix_to_state = {}
+        if os.environ.get("PDPY11_VERIF") == "1":
+            # Verification hook: (statement, address it was given, chunk it produced)
+            self.verif_trace = []
 
 
     def compile_file(self, file, start, link_base):
@@ -54,6 +58,8 @@ class Compiler:
                 if isinstance(insn, Instruction):
                     chunk = self.compile_insn(insn, state)
                     if chunk is not None:
+                        if hasattr(self, "verif_trace"):
+                            self.verif_trace.append((insn, addr, chunk))
                         data += chunk
                         if isinstance(chunk, BaseDeferred):
                             addr += chunk.length()
@@ -62,6 +68,8 @@ class Compiler:
 
                 elif isinstance(insn, WordList):
                     chunk = self.compile_word_list(insn, insn.words, state)
+                    if hasattr(self, "verif_trace"):
+                        self.verif_trace.append((insn, addr, chunk))
                     data += chunk
                     if isinstance(chunk, BaseDeferred):
                         addr += chunk.length()
@@ -103,6 +111,8 @@ class Compiler:
                                     return b"\x00" * length
 
                                 chunk = Deferred[bytes](fn)
+                                if hasattr(self, "verif_trace"):
+                                    self.verif_trace.append((insn, addr, chunk))
                                 data += chunk
                                 if isinstance(chunk, BaseDeferred):
                                     addr += chunk.length()
